@@ -7,7 +7,7 @@ LEAN_MODULES = ["ShootVerif.Props.C05"]
 USES_FACTS = False
 DRIVER = "shootmodel_map"
 
-KEYS_PREFIX = ("to:", "from:", "compile", "exit", "rt:")
+KEYS_PREFIX = ("to:", "from:", "writes:", "compile", "exit", "rt:")
 DROP = ("to:nilrecv", "from:nilarg")
 
 
@@ -16,7 +16,7 @@ def shaped(g):
     out = []
     for kind in ("same", "conv", "oneway", "misconv", "none", "func", "sub", "each"):
         out.append(("kind-" + kind, g.pair(kinds=[kind], n=(3, 4), names=["ident"], multi=0, shadow=0)))
-    for nk in ("ident", "acronym", "caseonly", "tag", "tagpascal", "skip"):
+    for nk in ("ident", "acronym", "caseonly", "tag", "tagpascal", "tagsnake", "skip"):
         for ic in (False, True):
             out.append(("name-%s-i%d" % (nk, ic), g.pair(names=[nk], n=(3, 4), flags={"i": ic}, kinds=["same", "conv"], multi=0)))
     for way in ("both", "to", "from"):
@@ -75,6 +75,9 @@ def run_cases(ctx, cases):
         rcs = [x["rc"] for x in r["runs"]]
         im["exit"] = "0" if all(x == 0 for x in rcs) else str([x for x in rcs if x != 0][0])
         im["compile"] = "ok" if r["compile"] == "ok" else "error"
+        gen = [v for k, v in r["written"].items() if k.endswith(".shootmap.%s.go" % c["spec"]["sname"].lower())]
+        if gen and r["compile"] == "ok":
+            im.update(mapgen.text_writes(c["spec"], gen[0]))
         impl[c["id"]] = im
         c["detail"] = {"stderr": r["runs"][-1]["stderr"][-600:], "compile": r["compile"],
                        "generated": {k: v for k, v in r["written"].items() if ".shootmap." in k}}
